@@ -66,3 +66,94 @@ package vm
 //@   invariant tracker != nil && fresh(tracker)
 //@   invariant forall a common.Address :: (a in tracker) == (visited[a] && (a in t))
 //@   invariant forall a common.Address :: (a in tracker) ==> tracker[a] == t[a]
+
+// ---------------------------------------------------------------------------------------------
+// state_db_logs.go — Logs (slice of log pointers; the log objects themselves are never mutated by the StateDB)
+// ---------------------------------------------------------------------------------------------
+
+// Copy: a NEW backing array with the same elements (so appends to either slice never show through the other).
+//@ func (l Logs) Copy() Logs
+//@   modifies nothing
+//@   ensures[C03.logs_copy_nil] (l == nil) == (result == nil)
+//@   ensures[C03.logs_copy_fresh] l != nil ==> fresh(base(result))
+//@   ensures[C03.logs_copy_equal] len(result) == len(l) && (forall i int :: 0 <= i && i < len(l) ==> result[i] == l[i])
+//@   panics never
+
+// ---------------------------------------------------------------------------------------------
+// state_db_access_list.go — AccessList2: address -> set of slots, as a map of maps (all references)
+// Abstract view: address a is warm iff  a in al.elements ; slot (a, s) is warm iff  s in al.elements[a].
+// ---------------------------------------------------------------------------------------------
+
+// Well-formedness: distinct addresses never share an inner slot map (otherwise adding a slot for one address
+// would warm it for another one).
+//@ ghost macro alOk(al *AccessList2) bool = al != nil && al.elements != nil && (forall a common.Address, b common.Address :: (a != b && al.elements[a] != nil) ==> al.elements[a] != al.elements[b])
+
+//@ func newAccessList2() *AccessList2
+//@   modifies nothing
+//@   ensures[C03.al_new] result != nil && fresh(result) && fresh(result.elements) && (forall a common.Address :: !(a in result.elements)) && alOk(result)
+//@   panics never
+
+//@ func (al *AccessList2) ContainsAddress(address common.Address) bool
+//@   requires al != nil
+//@   modifies nothing
+//@   ensures[C03.al_contains_address] result == (address in al.elements)
+//@   panics never
+
+//@ func (al *AccessList2) Contains(address common.Address, slot common.Hash) (addressPresent bool, slotPresent bool)
+//@   requires al != nil
+//@   modifies nothing
+//@   ensures[C03.al_contains] addressPresent == (address in al.elements) && slotPresent == (slot in al.elements[address])
+//@   panics never
+
+//@ func (al *AccessList2) AddAddress(address common.Address) bool
+//@   requires alOk(al)
+//@   modifies contents(al.elements)
+//@   ensures[C03.al_add_address] result == !old(address in al.elements) && (forall a common.Address :: (a in al.elements) == (a == address || old(a in al.elements)))
+//@   ensures[C03.al_add_address_slots] forall a common.Address :: al.elements[a] == old(al.elements[a])
+//@   ensures alOk(al)
+//@   panics never
+
+// AddSlot writes in place only into the non-empty inner map of this very address; otherwise it allocates a new map.
+//@ func (al *AccessList2) AddSlot(address common.Address, slot common.Hash) (addrChange bool, slotChange bool)
+//@   requires alOk(al)
+//@   modifies contents(al.elements), contents(al.elements[address])
+//@   ensures[C03.al_add_slot_flags] addrChange == !old(address in al.elements) && slotChange == !old(slot in al.elements[address])
+//@   ensures[C03.al_add_slot_view] (forall a common.Address :: (a in al.elements) == (a == address || old(a in al.elements))) && (forall a common.Address, s common.Hash :: (s in al.elements[a]) == ((a == address && s == slot) || old(s in al.elements[a])))
+//@   ensures[C03.al_add_slot_noshare] (forall a common.Address :: a != address ==> al.elements[a] == old(al.elements[a])) && al.elements[address] != nil && (al.elements[address] == old(al.elements[address]) || fresh(al.elements[address]))
+//@   ensures alOk(al)
+//@   panics never
+
+//@ func (al *AccessList2) DeleteSlot(address common.Address, slot common.Hash)
+//@   requires alOk(al)
+//@   modifies contents(al.elements), contents(al.elements[address])
+//@   ensures[C03.al_delete_slot] (forall a common.Address :: (a in al.elements) == old(a in al.elements)) && (forall a common.Address, s common.Hash :: (s in al.elements[a]) == (old(s in al.elements[a]) && !(a == address && s == slot)))
+//@   ensures alOk(al)
+//@   panics[C03.al_delete_slot_panics] iff !(address in al.elements)
+
+//@ func (al *AccessList2) DeleteAddress(address common.Address)
+//@   requires alOk(al)
+//@   modifies contents(al.elements)
+//@   ensures[C03.al_delete_address] forall a common.Address :: (a in al.elements) == (a != address && old(a in al.elements)) && (a != address ==> al.elements[a] == old(al.elements[a]))
+//@   ensures alOk(al)
+//@   panics never
+
+// Copy: deep copy — a new AccessList2, a new outer map and a new inner map per address that has slots
+// (addresses without slots map to nil). Nothing of the result is shared with al.
+//@ func (al *AccessList2) Copy() *AccessList2
+//@   requires al != nil
+//@   modifies nothing
+//@   ensures[C03.al_copy_fresh] result != nil && fresh(result) && result.elements != nil && fresh(result.elements) && (forall a common.Address :: result.elements[a] == nil || fresh(result.elements[a]))
+//@   ensures[C03.al_copy_equal] (forall a common.Address :: (a in result.elements) == (a in al.elements)) && (forall a common.Address, s common.Hash :: (s in result.elements[a]) == (s in al.elements[a]))
+//@   ensures[C03.al_copy_ok] alOk(result)
+//@   panics never
+//@ loop 1
+//@   modifies contents(elements)
+//@   invariant elements != nil && fresh(elements)
+//@   invariant forall a common.Address :: (a in elements) == (visited[a] && (a in al.elements))
+//@   invariant forall a common.Address, s common.Hash :: (s in elements[a]) == ((a in elements) && (s in al.elements[a]))
+//@   invariant forall a common.Address :: elements[a] == nil || (fresh(elements[a]) && allocated(elements[a]))
+//@   invariant forall a common.Address, b common.Address :: (a != b && elements[a] != nil) ==> elements[a] != elements[b]
+//@ loop 2
+//@   modifies contents(slots)
+//@   invariant slots != nil && fresh(slots) && (forall a common.Address :: elements[a] != slots)
+//@   invariant forall s common.Hash :: (s in slots) == (visited[s] && (s in existingSlots))
